@@ -615,6 +615,11 @@ def run(ctx):
 
     # ---------------------------------------------------------------- 4. refusal causes latch before close
     r4 = rep.rule('C07.4-refusals-latch', 'R-ORDER', 'hop limit (>= MAXHOPS = 100), size countdown, bad sender/recipient each call qmail_fail before qmail_close')
+    # the hop counter itself: exactly the header lines that begin with received/delivered-to are counted (C05 rule 3)
+    from rules import C05 as _c05
+    hs_, _ = _c05.hop_sites(db, rep, cap=2)
+    for inst_, v_ in sorted(hs_.items()):
+        r4.check(v_[0], 'smtpd:' + inst_, v_[1], v_[2], v_[3])
     from qv.lib import branch_zero_test, consistent_values, deep_calls, _cmp_parts
     from qv.esp import Env
     maxhops = db.unit('qmail-smtpd.c').macro_int('MAXHOPS')
